@@ -490,11 +490,35 @@ theorem mem_foldl_insertNat : ∀ (vs : List ValueRow) (acc : List Nat) (r : Nat
       · exact Or.inl h2
     · exact Or.inr ⟨w, List.mem_cons_of_mem _ hw, hr⟩
 
+theorem fillPacket_spec (d : Db) (cid ln row : Nat) :
+    ∃ fill : List ValueRow, (d.fillPacket cid ln row).values = d.values ++ fill ∧
+      (d.fillPacket cid ln row).items = d.items ∧ (d.fillPacket cid ln row).loops = d.loops ∧
+      (d.fillPacket cid ln row).frames = d.frames ∧ (d.fillPacket cid ln row).blocks = d.blocks ∧
+      (∀ w ∈ fill, w.cid = cid ∧ w.rowNum = row ∧ w.val.kindCode = 5 ∧ (d.loopItems cid ln).any (fun i => i.name == w.name) = true) ∧
+      (row ≠ 0 → ∀ i ∈ d.loopItems cid ln, d.hasValue cid i.name row = true ∨ ∃ w ∈ fill, w.name = i.name) := by
+  unfold Db.fillPacket
+  simp only []
+  split
+  · rename_i hrow
+    refine ⟨[], by simp, rfl, rfl, rfl, rfl, (fun _ h => nomatch h), (fun hne => absurd (by simpa using hrow) hne)⟩
+  · refine ⟨_, rfl, rfl, rfl, rfl, rfl, ?_, ?_⟩
+    · intro w hw
+      obtain ⟨i, hi, rfl⟩ := List.mem_map.mp hw
+      have hi1 := (List.mem_filter.mp hi).1
+      refine ⟨rfl, rfl, rfl, ?_⟩
+      rw [List.any_eq_true]
+      exact ⟨i, hi1, by simp⟩
+    · intro _ i hi
+      cases hv : d.hasValue cid i.name row with
+      | true => exact Or.inl rfl
+      | false =>
+        right
+        exact ⟨_, List.mem_map.mpr ⟨i, List.mem_filter.mpr ⟨hi, by simp [hv]⟩, rfl⟩, rfl⟩
+
 /-- add_packet, container-local refinement: on success the target loop gains exactly one packet at the end — the given values,
-    the unknown value for the loop's items the packet omits — and every other loop of the CIF, blocks and frames are what
-    they were.  Hypothesis beyond `Inv`: `RowsBelow` (row numbers ≤ last_row_num; not yet part of `Inv`).
-    NOTE this is the documented behaviour at the level of `abs` even for packets that omit items; the defect F30 (nothing is
-    STORED for the omitted items) only shows when such an item's loop-mates are removed later. -/
+    the unknown value for the loop's items the packet omits (since fix e266ec6 they are stored as such: `addPacket_total`) — and
+    every other loop of the CIF, blocks and frames are what they were.  Hypothesis beyond `Inv`: `RowsBelow` (row numbers ≤
+    last_row_num). -/
 theorem addPacket_refines (d d' : Db) (l : LH) (pkt : List (Str × V)) (h : Inv d) (hrb : RowsBelow d l.cid l.loopNum)
     (hne : pkt ≠ []) (he : addPacketBody l pkt d = .ok (d', ())) :
     (∀ cid', absLoops d' cid' = (d.loops.filter (fun x => x.cid == cid')).map (fun x =>
@@ -516,52 +540,84 @@ theorem addPacket_refines (d d' : Db) (l : LH) (pkt : List (Str × V)) (h : Inv 
         subst he
         obtain ⟨l1, i1, v1, f1, b1, _⟩ := bumpRowNum_spec d d1 _ _ hbump
         obtain ⟨v2, i2, l2, f2, b2, _, hm⟩ := addValues_spec pkt d1 d2 l.cid l.loopNum row hadd
+        obtain ⟨fill, v3, i3, l3, f3, b3, hfillp, _⟩ := fillPacket_spec d2 l.cid l.loopNum row
         rw [i1] at i2; rw [l1] at l2; rw [v1] at v2
-        have hitems : ∀ c n, d2.loopItems c n = d.loopItems c n := by intro c n; simp only [Db.loopItems, i2]
+        rw [i2] at i3; rw [l2] at l3; rw [f2, f1] at f3; rw [b2, b1] at b3
+        generalize d2.fillPacket l.cid l.loopNum row = d3 at *
+        have hitems : ∀ c n, d3.loopItems c n = d.loopItems c n := by intro c n; simp only [Db.loopItems, i3]
+        have hit2 : d2.loopItems l.cid l.loopNum = d.loopItems l.cid l.loopNum := by simp only [Db.loopItems, i2]
         have hm' : ∀ e ∈ pkt, (d.loopItems l.cid l.loopNum).any (fun i => i.name == e.1) = true := by
           intro e he'; have := hm e he'; simpa only [Db.loopItems, i1] using this
+        let newvals : List ValueRow := pkt.map (fun e => { cid := l.cid, name := e.1, rowNum := row, val := e.2 }) ++ fill
+        have hv3 : d3.values = d.values ++ newvals := by rw [v3, v2, List.append_assoc]
+        -- every new row is a value of an item of the target loop, in the new row
+        have hP1 : ∀ w ∈ newvals, w.cid = l.cid ∧ w.rowNum = row ∧ (d.loopItems l.cid l.loopNum).any (fun i => i.name == w.name) = true := by
+          intro w hw
+          rcases List.mem_append.mp hw with hw | hw
+          · obtain ⟨e, hep, rfl⟩ := List.mem_map.mp hw
+            exact ⟨rfl, rfl, hm' e hep⟩
+          · have := hfillp w hw
+            exact ⟨this.1, this.2.1, by rw [← hit2]; exact this.2.2.2⟩
+        have hP2 : newvals ≠ [] := by
+          intro h0
+          have : pkt.map (fun e => ({ cid := l.cid, name := e.1, rowNum := row, val := e.2 } : ValueRow)) = [] := (List.append_eq_nil_iff.mp h0).1
+          exact hne (by simpa using this)
+        -- what the new row holds for an item of the loop
+        have hP3 : ∀ i : ItemRow, ((newvals.find? (fun v => v.cid == l.cid && v.name == i.name && v.rowNum == row)).map (·.val)).getD .unk =
+            ((pkt.find? (fun e => e.1 == i.name)).map (·.2)).getD .unk := by
+          intro i
+          simp only [newvals, List.find?_append, List.find?_map]
+          have hcomp : ((fun v : ValueRow => v.cid == l.cid && v.name == i.name && v.rowNum == row) ∘
+              (fun e : Str × V => ({ cid := l.cid, name := e.1, rowNum := row, val := e.2 } : ValueRow))) = (fun e : Str × V => e.1 == i.name) := by
+            funext e; simp [Function.comp]
+          rw [hcomp]
+          cases hp : pkt.find? (fun e => e.1 == i.name) with
+          | some e => rfl
+          | none =>
+            simp only [Option.map_none, Option.none_or]
+            cases hf : fill.find? (fun v => v.cid == l.cid && v.name == i.name && v.rowNum == row) with
+            | none => rfl
+            | some w =>
+              have hk := (hfillp w (List.mem_of_find?_eq_some hf)).2.2.1
+              simp only [Option.map_some, Option.getD_some, Option.getD_none]
+              cases hw : w.val <;> simp [hw, V.kindCode] at hk ⊢
         let f : LoopRow → LoopRow := fun x => if x.cid == l.cid && x.loopNum == l.loopNum then { x with lastRowNum := x.lastRowNum + 1 } else x
         have hfk : ∀ x, (f x).cid = x.cid ∧ (f x).loopNum = x.loopNum ∧ (f x).category = x.category := by
           intro x; simp only [f]; split <;> exact ⟨rfl, rfl, rfl⟩
-        -- absLoop looks at cid, loop_num and category only
-        have habs : ∀ x, absLoop d2 (f x) = absLoop d2 x := by
+        have habs : ∀ x, absLoop d3 (f x) = absLoop d3 x := by
           intro x; simp only [absLoop, (hfk x).1, (hfk x).2.1, (hfk x).2.2]
-        let newvals : List ValueRow := pkt.map (fun e => { cid := l.cid, name := e.1, rowNum := row, val := e.2 })
-        -- a new value is a value of an item of the target loop only
         have hforeign : ∀ x ∈ d.loops, (x.cid == l.cid && x.loopNum == l.loopNum) = false → ∀ w ∈ newvals,
             (w.cid == x.cid && (d.loopItems x.cid x.loopNum).any (fun i => i.name == w.name)) = false := by
           intro x _ hx w hw
-          obtain ⟨e, hep, rfl⟩ := List.mem_map.mp hw
-          cases hc : ((l.cid == x.cid) && (d.loopItems x.cid x.loopNum).any (fun i => i.name == e.1)) with
+          obtain ⟨hwc, _, hwa⟩ := hP1 w hw
+          cases hc : ((w.cid == x.cid) && (d.loopItems x.cid x.loopNum).any (fun i => i.name == w.name)) with
           | false => rfl
           | true =>
             exfalso
             simp only [Bool.and_eq_true, List.any_eq_true] at hc
             obtain ⟨hcid, i, hi, hin⟩ := hc
-            have := hm' e hep
-            simp only [List.any_eq_true] at this
-            obtain ⟨j, hj, hjn⟩ := this
+            simp only [List.any_eq_true] at hwa
+            obtain ⟨j, hj, hjn⟩ := hwa
             obtain ⟨him, hik⟩ := List.mem_filter.mp hi
             obtain ⟨hjm, hjk⟩ := List.mem_filter.mp hj
             simp at hik hjk hin hjn hcid
-            have : i = j := itemKey_unique d.items h.itemPK i him j hjm (by rw [hik.1, hjk.1, hcid]) (by rw [hin, hjn])
+            have : i = j := itemKey_unique d.items h.itemPK i him j hjm (by rw [hik.1, hjk.1, ← hcid, hwc]) (by rw [hin, hjn])
             subst this
-            have : (x.cid == l.cid && x.loopNum == l.loopNum) = true := by simp [← hcid, ← hik.2, hjk.2]
+            have : (x.cid == l.cid && x.loopNum == l.loopNum) = true := by simp [← hcid, hwc, ← hik.2, hjk.2]
             rw [this] at hx; cases hx
-        have hrest : ∀ x ∈ d.loops, (x.cid == l.cid && x.loopNum == l.loopNum) = false → absLoop d2 x = absLoop d x := by
+        have hrest : ∀ x ∈ d.loops, (x.cid == l.cid && x.loopNum == l.loopNum) = false → absLoop d3 x = absLoop d x := by
           intro x hx hxm
-          have hfil : d2.values.filter (fun v => v.cid == x.cid && (d.loopItems x.cid x.loopNum).any (fun i => i.name == v.name)) =
+          have hfil : d3.values.filter (fun v => v.cid == x.cid && (d.loopItems x.cid x.loopNum).any (fun i => i.name == v.name)) =
               d.values.filter (fun v => v.cid == x.cid && (d.loopItems x.cid x.loopNum).any (fun i => i.name == v.name)) := by
-            rw [v2, List.filter_append]
+            rw [hv3, List.filter_append]
             have : newvals.filter (fun v => v.cid == x.cid && (d.loopItems x.cid x.loopNum).any (fun i => i.name == v.name)) = [] := by
               rw [List.filter_eq_nil_iff]; intro w hw; simp [hforeign x hx hxm w hw]
-            show _ ++ newvals.filter _ = _
             rw [this, List.append_nil]
           have hfind : ∀ i ∈ d.loopItems x.cid x.loopNum, ∀ r,
-              d2.values.find? (fun v => v.cid == x.cid && v.name == i.name && v.rowNum == r) =
+              d3.values.find? (fun v => v.cid == x.cid && v.name == i.name && v.rowNum == r) =
               d.values.find? (fun v => v.cid == x.cid && v.name == i.name && v.rowNum == r) := by
             intro i hi r
-            rw [v2, List.find?_append]
+            rw [hv3, List.find?_append]
             have : newvals.find? (fun v => v.cid == x.cid && v.name == i.name && v.rowNum == r) = none := by
               rw [List.find?_eq_none]
               intro w hw hq
@@ -571,7 +627,6 @@ theorem addPacket_refines (d d' : Db) (l : LH) (pkt : List (Str × V)) (h : Inv 
                 simp only [Bool.and_eq_true, List.any_eq_true]
                 exact ⟨hq.1.1, i, hi, by have := hq.1.2; simp at this ⊢; exact this.symm⟩
               rw [this] at hf; cases hf
-            show (_ : Option ValueRow).or (newvals.find? _) = _
             rw [this, Option.or_none]
           simp only [absLoop, Db.loopRows, hitems, hfil]
           congr 1
@@ -581,10 +636,9 @@ theorem addPacket_refines (d d' : Db) (l : LH) (pkt : List (Str × V)) (h : Inv 
           intro i hi
           rw [hfind i hi r]
         have htarget : ∀ x ∈ d.loops, (x.cid == l.cid && x.loopNum == l.loopNum) = true →
-            absLoop d2 x = { absLoop d x with packets := (absLoop d x).packets ++ [packetFor d l.cid l.loopNum pkt] } := by
+            absLoop d3 x = { absLoop d x with packets := (absLoop d x).packets ++ [packetFor d l.cid l.loopNum pkt] } := by
           intro x hx hxm
           have hxk : x.cid = l.cid ∧ x.loopNum = l.loopNum := by simpa using hxm
-          -- the row number used
           have hrowv : row = x.lastRowNum + 1 := by
             have : d1.lastRowNum l.cid l.loopNum = some row := hrow
             unfold Db.lastRowNum at this
@@ -607,17 +661,15 @@ theorem addPacket_refines (d d' : Db) (l : LH) (pkt : List (Str × V)) (h : Inv 
             intro v hv hc ha
             have := hrb x hx hxk.1 hxk.2 v hv hc ha
             omega
-          have hfil : d2.values.filter (fun v => v.cid == l.cid && (d.loopItems l.cid l.loopNum).any (fun i => i.name == v.name)) =
+          have hfil : d3.values.filter (fun v => v.cid == l.cid && (d.loopItems l.cid l.loopNum).any (fun i => i.name == v.name)) =
               d.values.filter (fun v => v.cid == l.cid && (d.loopItems l.cid l.loopNum).any (fun i => i.name == v.name)) ++ newvals := by
-            rw [v2, List.filter_append]
+            rw [hv3, List.filter_append]
             congr 1
-            show newvals.filter _ = newvals
             rw [List.filter_eq_self]
             intro w hw
-            obtain ⟨e, hep, rfl⟩ := List.mem_map.mp hw
-            simp only [beq_self_eq_true, Bool.true_and]
-            exact hm' e hep
-          have hrows : d2.loopRows l.cid l.loopNum = d.loopRows l.cid l.loopNum ++ [row] := by
+            obtain ⟨hwc, _, hwa⟩ := hP1 w hw
+            simp [hwc, hwa]
+          have hrows : d3.loopRows l.cid l.loopNum = d.loopRows l.cid l.loopNum ++ [row] := by
             unfold Db.loopRows
             rw [hitems, hfil, List.foldl_append]
             apply foldl_insert_same
@@ -628,17 +680,12 @@ theorem addPacket_refines (d d' : Db) (l : LH) (pkt : List (Str × V)) (h : Inv 
                 simp only [Bool.and_eq_true] at hvk
                 rw [← hvr]
                 exact hbelow v hvm (by simpa using hvk.1) hvk.2
-            · intro h0
-              have : pkt = [] := by simpa [newvals] using h0
-              exact hne this
-            · intro w hw
-              obtain ⟨e, _, rfl⟩ := List.mem_map.mp hw
-              rfl
+            · exact hP2
+            · intro w hw; exact (hP1 w hw).2.1
           simp only [absLoop, hxk.1, hxk.2, hrows, hitems, List.map_append, List.map_singleton]
           congr 1
           congr 1
-          · -- the old packets
-            apply List.map_congr_left
+          · apply List.map_congr_left
             intro r hr
             apply List.map_congr_left
             intro i hi
@@ -649,21 +696,19 @@ theorem addPacket_refines (d d' : Db) (l : LH) (pkt : List (Str × V)) (h : Inv 
                 simp only [Bool.and_eq_true] at hvk
                 rw [← hvr]
                 exact hbelow v hvm (by simpa using hvk.1) hvk.2
-            rw [v2, List.find?_append]
+            rw [hv3, List.find?_append]
             have : newvals.find? (fun v => v.cid == l.cid && v.name == i.name && v.rowNum == r) = none := by
               rw [List.find?_eq_none]
               intro w hw hq
-              obtain ⟨e, _, rfl⟩ := List.mem_map.mp hw
+              have := (hP1 w hw).2.1
               simp at hq
               omega
-            show Option.getD (Option.map _ ((_ : Option ValueRow).or (newvals.find? _))) _ = _
             rw [this, Option.or_none]
-          · -- the new packet
-            unfold packetFor
+          · unfold packetFor
             congr 1
             apply List.map_congr_left
             intro i hi
-            rw [v2, List.find?_append]
+            rw [hv3, List.find?_append]
             have hold : d.values.find? (fun v => v.cid == l.cid && v.name == i.name && v.rowNum == row) = none := by
               rw [List.find?_eq_none]
               intro v hv hq
@@ -673,18 +718,12 @@ theorem addPacket_refines (d d' : Db) (l : LH) (pkt : List (Str × V)) (h : Inv 
                 exact ⟨i, hi, by have := hq.1.2; simp at this ⊢; exact this.symm⟩)
               have : v.rowNum = row := by simpa using hq.2
               omega
-            show Option.getD (Option.map _ ((_ : Option ValueRow).or (newvals.find? _))) _ = _
-            rw [hold]
-            simp only [Option.none_or, newvals, List.find?_map]
-            have hcomp : ((fun v : ValueRow => v.cid == l.cid && v.name == i.name && v.rowNum == row) ∘
-                (fun e : Str × V => ({ cid := l.cid, name := e.1, rowNum := row, val := e.2 } : ValueRow))) = (fun e : Str × V => e.1 == i.name) := by
-              funext e; simp [Function.comp]
-            rw [hcomp]
-            cases pkt.find? (fun e => e.1 == i.name) <;> rfl
-        refine ⟨?_, by rw [f2, f1], by rw [b2, b1]⟩
+            rw [hold, Option.none_or]
+            exact hP3 i
+        refine ⟨?_, f3, b3⟩
         intro cid'
         unfold absLoops
-        rw [l2, List.filter_map]
+        rw [l3, List.filter_map]
         have hcomp : ((fun x : LoopRow => x.cid == cid') ∘ f) = (fun x : LoopRow => x.cid == cid') := by
           funext y; simp only [Function.comp, (hfk y).1]
         rw [hcomp, List.map_map]
@@ -739,5 +778,63 @@ theorem rowsBelowB_sound (d : Db) (h : d.rowsBelowB = true) (cid ln : Nat) : Row
   rw [hc, hl] at this
   simp [hvc, ha] at this
   exact this
+
+end CifModel.Store
+
+namespace CifModel.Store
+
+/-- since fix e266ec6: the packet cif_loop_add_packet adds is TOTAL — every item of the loop has a stored value in the new row
+    (the given value, or the explicit unknown value), and the new row is the loop's `last_row_num` -/
+theorem addPacket_total (d d' : Db) (l : LH) (pkt : List (Str × V)) (he : addPacketBody l pkt d = .ok (d', ())) :
+    ∃ row, d'.lastRowNum l.cid l.loopNum = some row ∧ 0 < row ∧
+      ∀ i ∈ d'.loopItems l.cid l.loopNum, d'.hasValue l.cid i.name row = true := by
+  unfold addPacketBody at he
+  split at he
+  · split at he <;> cases he
+  · rename_i d1 hbump
+    split at he
+    · cases he
+    · rename_i row hrow
+      split at he
+      · cases he
+      · rename_i d2 hadd
+        simp only [Except.ok.injEq, Prod.mk.injEq, and_true] at he
+        subst he
+        obtain ⟨l1, _, _, _, _, _⟩ := bumpRowNum_spec d d1 _ _ hbump
+        obtain ⟨v2, i2, l2, _, _, _, _⟩ := addValues_spec pkt d1 d2 l.cid l.loopNum row hadd
+        obtain ⟨fill, v3, i3, l3, _, _, _, htot⟩ := fillPacket_spec d2 l.cid l.loopNum row
+        have hpos : 0 < row := by
+          have : d1.lastRowNum l.cid l.loopNum = some row := hrow
+          unfold Db.lastRowNum at this
+          rw [l1, List.find?_map] at this
+          cases hf : d.loops.find? ((fun y : LoopRow => y.cid == l.cid && y.loopNum == l.loopNum) ∘
+              (fun y => if y.cid == l.cid && y.loopNum == l.loopNum then { y with lastRowNum := y.lastRowNum + 1 } else y)) with
+          | none => rw [hf] at this; cases this
+          | some y =>
+            rw [hf] at this
+            have hk := List.find?_some hf
+            simp only [Function.comp] at hk
+            simp only [Option.map_some, Option.some.injEq] at this
+            by_cases hm : (y.cid == l.cid && y.loopNum == l.loopNum) = true
+            · simp only [hm, if_true] at this; omega
+            · simp only [hm, if_false] at hk; exact absurd hk hm
+        refine ⟨row, ?_, hpos, ?_⟩
+        · show (d2.fillPacket l.cid l.loopNum row).lastRowNum l.cid l.loopNum = some row
+          unfold Db.lastRowNum
+          rw [l3, l2]; exact hrow
+        · intro i hi
+          have hi2 : i ∈ d2.loopItems l.cid l.loopNum := by simpa only [Db.loopItems, i3] using hi
+          rcases htot (by omega) i hi2 with hv | ⟨w, hw, hwn⟩
+          · simp only [Db.hasValue, List.any_eq_true] at hv ⊢
+            obtain ⟨v, hvm, hvk⟩ := hv
+            exact ⟨v, by rw [v3]; exact List.mem_append_left _ hvm, hvk⟩
+          · simp only [Db.hasValue, List.any_eq_true]
+            refine ⟨w, by rw [v3]; exact List.mem_append_right _ hw, ?_⟩
+            have hp := fillPacket_spec d2 l.cid l.loopNum row
+            obtain ⟨fill', v3', _, _, _, _, hfp, _⟩ := hp
+            have : fill' = fill := List.append_cancel_left (by rw [← v3', v3])
+            subst this
+            have := hfp w hw
+            simp [this.1, this.2.1, hwn]
 
 end CifModel.Store
